@@ -123,12 +123,32 @@ func main() {
 	// ---- build from /repo's working tree
 	buildDir := filepath.Join(root, ".build")
 	_ = os.MkdirAll(buildDir, 0o755)
-	bin := filepath.Join(buildDir, "props.test")
-	args := []string{"test", "-c", "-tags", "verif", "-o", bin, "./props"}
-	if cfg.Race {
-		bin = filepath.Join(buildDir, "props.race.test")
-		args = []string{"test", "-c", "-race", "-tags", "verif", "-o", bin, "./props"}
+	// Tooling only (sensitivity runs on scratch copies): VERIF_REPO selects
+	// another checkout of the library through an alternative go.mod. The
+	// registered commands never set it and always build /repo.
+	suffix, modfile := "", ""
+	if alt := os.Getenv("VERIF_REPO"); alt != "" && alt != "/repo" {
+		suffix = fmt.Sprintf("-%x", hash([]byte(alt)))
+		modfile = filepath.Join(buildDir, "alt"+suffix+".mod")
+		gm, err := os.ReadFile(filepath.Join(root, "harness", "go.mod"))
+		if err != nil {
+			die(2, "go.mod: %v", err)
+		}
+		_ = os.WriteFile(modfile, []byte(strings.Replace(string(gm), "=> /repo", "=> "+alt, 1)), 0o644)
+		if gs, err := os.ReadFile(filepath.Join(root, "harness", "go.sum")); err == nil {
+			_ = os.WriteFile(strings.TrimSuffix(modfile, ".mod")+".sum", gs, 0o644)
+		}
 	}
+	bin := filepath.Join(buildDir, "props"+suffix+".test")
+	args := []string{"test", "-c", "-tags", "verif", "-o", bin}
+	if cfg.Race {
+		bin = filepath.Join(buildDir, "props"+suffix+".race.test")
+		args = []string{"test", "-c", "-race", "-tags", "verif", "-o", bin}
+	}
+	if modfile != "" {
+		args = append(args, "-modfile="+modfile)
+	}
+	args = append(args, "./props")
 	bc := exec.Command("go", args...)
 	bc.Dir = filepath.Join(root, "harness")
 	bc.Env = env()
@@ -340,7 +360,7 @@ func main() {
 	}
 
 	// ---- evidence
-	if *replay == "" {
+	if *replay == "" && os.Getenv("VERIF_NOEVIDENCE") == "" {
 		if len(merged.Samples) == 0 {
 			// every shard ended early: show the violating cases instead
 			for _, f := range failures {
